@@ -604,6 +604,17 @@ fn try_merge_with_subschemas_not(
     }
 }
 
+/// The instance type that admits exactly the values admitted by both `a` and
+/// `b`, if there are any. Note that every integer is also a number.
+fn merge_instance_type(a: &InstanceType, b: &InstanceType) -> Option<InstanceType> {
+    match (a, b) {
+        (a, b) if a == b => Some(*a),
+        (InstanceType::Integer, InstanceType::Number)
+        | (InstanceType::Number, InstanceType::Integer) => Some(InstanceType::Integer),
+        _ => None,
+    }
+}
+
 /// Merge instance types which could be None (meaning type is valid), a
 /// singleton type, or an array of types. An error result indicates that the
 /// types were non-overlappin and therefore incompatible.
@@ -615,23 +626,26 @@ fn merge_so_instance_type(
         (None, None) => Ok(None),
         (None, other @ Some(_)) | (other @ Some(_), None) => Ok(other.cloned()),
 
-        // If each has a single type, it must match.
+        // If each has a single type, they must overlap.
         (Some(SingleOrVec::Single(aa)), Some(SingleOrVec::Single(bb))) => {
-            if aa == bb {
-                Ok(Some(SingleOrVec::Single(aa.clone())))
-            } else {
-                Err(())
-            }
+            merge_instance_type(aa, bb)
+                .map(|it| Some(SingleOrVec::Single(Box::new(it))))
+                .ok_or(())
         }
 
         // If one has a single type and the other is an array, the type must
-        // appear in the array (and that's the resulting type).
+        // appear in the array (and that's the resulting type) or overlap with
+        // one that does.
         (Some(SingleOrVec::Vec(types)), Some(SingleOrVec::Single(it)))
         | (Some(SingleOrVec::Single(it)), Some(SingleOrVec::Vec(types))) => {
             if types.contains(it) {
                 Ok(Some(SingleOrVec::Single(it.clone())))
             } else {
-                Err(())
+                types
+                    .iter()
+                    .find_map(|tt| merge_instance_type(tt, it))
+                    .map(|it| Some(SingleOrVec::Single(Box::new(it))))
+                    .ok_or(())
             }
         }
 
@@ -640,10 +654,9 @@ fn merge_so_instance_type(
         (Some(SingleOrVec::Vec(aa)), Some(SingleOrVec::Vec(bb))) => {
             let types = aa
                 .iter()
+                .flat_map(|aa| bb.iter().filter_map(move |bb| merge_instance_type(aa, bb)))
                 .collect::<BTreeSet<_>>()
-                .intersection(&bb.iter().collect::<BTreeSet<_>>())
-                .cloned()
-                .cloned()
+                .into_iter()
                 .collect::<Vec<_>>();
 
             match types.len() {
